@@ -30,6 +30,9 @@ pub enum W {
     CreateEdge { s: u16, t: u8, d: u16 },
     DeleteEdge { e: u16 },
     DeleteNode { n: u16 },
+    /// tombstone a node without first tombstoning its relationships (the storage API
+    /// documents that a deleted node's relationships are hidden)
+    TombstoneNodeOnly { n: u16 },
     SetNodeProp { n: u16, k: u8, v: PV },
     RemoveNodeProp { n: u16, k: u8 },
     SetEdgeProp { e: u16, k: u8, v: PV },
@@ -121,6 +124,7 @@ pub fn write_op(nested: bool) -> impl Strategy<Value = W> + Clone {
         7 => (n, 0u8..TYPES.len() as u8, n).prop_map(|(s, t, d)| W::CreateEdge { s, t, d }),
         3 => n.prop_map(|e| W::DeleteEdge { e }),
         2 => n.prop_map(|n| W::DeleteNode { n }),
+        1 => n.prop_map(|n| W::TombstoneNodeOnly { n }),
         6 => (n, k.clone(), prop_value(nested)).prop_map(|(n, k, v)| W::SetNodeProp { n, k, v }),
         2 => (n, k.clone()).prop_map(|(n, k)| W::RemoveNodeProp { n, k }),
         4 => (n, k.clone(), prop_value(nested)).prop_map(|(e, k, v)| W::SetEdgeProp { e, k, v }),
@@ -283,6 +287,22 @@ pub fn resolve_tx(m: &mut Model, ws: &[W], excl: &Excl, hz: &Hazard, obs: &mut O
                 flags.deletes = true;
                 for k in m.incident_keys(n) {
                     push_delete_key(m, &k, &mut out);
+                    deleted_keys.insert(k);
+                }
+                m.delete_node(n);
+                out.push(RW::TombstoneNode { n });
+            }
+            W::TombstoneNodeOnly { n } => {
+                if nodes.is_empty() {
+                    continue;
+                }
+                let n = nodes[idx(*n, nodes.len())];
+                if excl.node_delete_then_compact && hz.later_compact {
+                    obs.excluded("node-delete-before-compaction");
+                    continue;
+                }
+                flags.deletes = true;
+                for k in m.incident_keys(n) {
                     deleted_keys.insert(k);
                 }
                 m.delete_node(n);
